@@ -327,6 +327,47 @@ func ZZ_C06_QueueDrain() {
 	zzvf.Reach("queue-drain")
 }
 
+// A frame larger than the client's 2 MiB write buffer between two small ones, drained from
+// the queue by SendAndClear (which buffers every queued frame and flushes once): whole
+// frames, in acceptance order.
+//vf: paths=200 steps=400000000 visits=20000000
+func ZZ_C06_QueueLargeFrame() {
+	znet.Reset()
+	c := zz6Client(true, 10)
+	big := make([]byte, 2*1024*1024+17)
+	for i := range big {
+		big[i] = byte('a' + i%7)
+	}
+	var want []byte
+	for i := 0; i < 3; i++ {
+		var p pack.Pack
+		var frame []byte
+		if i == 1 {
+			tp := pack.NewTextPack()
+			tp.Pcode, tp.Oid, tp.Time = 300, 5, 7
+			tp.AddText(pack.TextRec{Div: 1, Hash: 2, Text: string(big)})
+			body := zz6Cat([]byte{2}, zz6BE(300, 2), zz6BE(5, 4), zz6BE(7, 8), []byte{1, 1}, []byte{1}, zz6BE(2, 4), []byte{254}, zz6BE(uint64(len(big)), 4), big)
+			payload := zz6Cat(zz6BE(0x0700, 2), body)
+			frame = zz6Cat([]byte{10, 0}, zz6BE(300, 8), zz6BE(uint64(whash.Hash64Str(zz6Lic)), 8), zz6BE(uint64(len(payload)), 4), payload)
+			p = tp
+		} else {
+			p, frame = zz6Pack(zz6Lic)
+		}
+		zzvf.Assert(c.Send(p) == nil, "largeframe/accepted")
+		want = append(want, frame...)
+	}
+	zzvf.Assert(c.SendAndClear() == nil, "largeframe/drain-succeeds")
+	ok := len(znet.Links) == 1 && len(znet.Links[0].Rcvd) == len(want)
+	zzvf.Assert(ok, "largeframe/one-connection-all-bytes")
+	if ok {
+		r := znet.Links[0].Rcvd
+		// compare the two small frames and the boundaries of the large one exactly
+		zzvf.Assert(zzvf.Same(r[:48+64], want[:48+64]), "largeframe/first-frame-then-start-of-large-frame")
+		zzvf.Assert(zzvf.Same(r[len(r)-48-64:], want[len(want)-48-64:]), "largeframe/end-of-large-frame-then-last-frame")
+	}
+	zzvf.Reach("queue-large-frame")
+}
+
 // Queue mode through the real background loop process(): two accepted packs, then the
 // loop is cancelled while it waits on the empty queue.
 //vf: paths=2000
